@@ -53,7 +53,7 @@ def one(name: str, all_checks: bool) -> dict:
         res = {"error": (r.stdout + r.stderr)[-500:]}
     meta = {
         "id": name, "property": am["property"], "summary": am.get("summary"), "needs": am.get("needs"), "files": am.get("files"),
-        "origin": "written by an independent sub-agent that saw only the property text and a scratch worktree (round %d)" % {"a": 1, "b": 1, "c": 2, "d": 2, "e": 3, "f": 4, "g": 5, "h": 6, "i": 6, "j": 7, "k": 8, "l": 9, "m": 10, "n": 11, "o": 12, "p": 13, "q": 14, "r": 15, "s": 16, "t": 17, "u": 18, "v": 19, "w": 20, "x": 21}.get(name[-1], 0),
+        "origin": "written by an independent sub-agent that saw only the property text and a scratch worktree (round %d)" % {"a": 1, "b": 1, "c": 2, "d": 2, "e": 3, "f": 4, "g": 5, "h": 6, "i": 6, "j": 7, "k": 8, "l": 9, "m": 10, "n": 11, "o": 12, "p": 13, "q": 14, "r": 15, "s": 16, "t": 17, "u": 18, "v": 19, "w": 20, "x": 21, "y": 22}.get(name[-1], 0),
         "verified": {"how": "./selftest seeded/%s %s  (scratch copy of /repo + patch.diff; repository test suite; demo.py against the changed and the unchanged source; checks' quick tier with VERIF_REPO=<copy>)" % (name, " ".join(checks)),
                      "patch_applies": res.get("patch_applies"), "suite": res.get("suite"),
                      "demo_exit_with_change": res.get("demo_with"), "demo_exit_without_change": res.get("demo_without")},
